@@ -318,6 +318,16 @@ pub fn run(ctx: &Ctx) -> Report {
         for name in ["sizeof", "le", "strlen", "incbin", "utf8"] {
             cases.push((format!("#d8 0xee\n{n}:\n.x:\n#d8 {n}.x\n", n = name), Some(vec![0xee, 1])));
         }
+        // used before declared = used after declared, also when the use is the condition of a conditional, and when
+        // a constant or a reservation is the ONLY thing that waits for a later label
+        cases.push(("#d8 (x > 5 ? 1 : 2)\n#d8 0xaa\nx:\n".to_string(), Some(vec![2, 0xaa])));
+        cases.push(("x:\n#d8 (x > 5 ? 1 : 2)\n#d8 0xaa\n".to_string(), Some(vec![2, 0xaa])));
+        cases.push(("y = x > 5 ? 1 : 2\n#d8 y\nx = 7\n".to_string(), Some(vec![1])));
+        cases.push(("x = 7\ny = x > 5 ? 1 : 2\n#d8 y\n".to_string(), Some(vec![1])));
+        cases.push(("start:\n#d8 1, 2, 3\nlen = end - start\nend:\n".to_string(), Some(vec![1, 2, 3])));
+        cases.push(("start:\n#d8 1, 2, 3\nend:\nlen = end - start\n".to_string(), Some(vec![1, 2, 3])));
+        cases.push(("#d8 0xaa\n#res end - 3\n#d8 0xbb\n#addr 6\nend:\n".to_string(), Some(vec![0xaa, 0, 0, 0, 0xbb])));
+        cases.push(("len = end - start\nstart:\n#d8 1, 2, 3\nend:\n#d8 len\n".to_string(), Some(vec![1, 2, 3, 3])));
         // a top-level constant is the parent of the locals that follow it, just like a label (tests/symbol_constant_simple)
         cases.push(("K = 0\n.w = 1\n#d8 .w\n".to_string(), Some(vec![1])));
         cases.push(("g:\n.v = 0x11\nK = 0\n.v = 0x22\n#d8 .v\n#d8 g.v, K.v\n".to_string(), Some(vec![0x22, 0x11, 0x22])));
